@@ -625,6 +625,12 @@ theorem loader_selectors_cover_model_walk :
      "Parameters", "RequestBody", "Responses", "Callbacks", "Components", "Paths", "Schemas", "RequestBodies", "SecuritySchemes"].all
       (fun s => Gen.c20LoaderSelectors.contains s) = true := by decide
 
+/-- `LoadDoc.pathItemIsEmpty` and `LoadDoc.methodNames` follow `(*PathItem).isEmpty` and `(*PathItem).Operations` -/
+theorem path_item_shape_known :
+    Gen.c20PathItemIsEmpty = ["Summary", "Description", "Connect", "Delete", "Get", "Head", "Options", "Patch", "Post", "Put", "Trace", "Servers", "Parameters"] ∧
+    Gen.c20PathItemOps = ["Connect", "Delete", "Get", "Head", "Options", "Patch", "Post", "Put", "Trace"] ∧
+    LoadDoc.methodNames = ["connect", "delete", "get", "head", "options", "patch", "post", "put", "trace"] := by decide
+
 /-- 1c81ad5: every cycle of the call graph of InternalizeRefs' `deref…` functions passes through a function
     that consults a visited set — without the guarded functions the graph is acyclic (the rank of
     `internalize_total`); the guarded ones are exactly the three the walk model threads a set for -/
@@ -633,5 +639,33 @@ theorem deref_cycles_guarded :
     acyclicB Gen.c20DerefCalls = false ∧
     Gen.c20DerefGuards = [("derefSchema", "isVisitedSchema"), ("derefHeaders", "isVisitedHeader"), ("derefPaths", "isVisitedPathItem")] := by
   decide
+
+/-- the rank behind `internalize_total`, function by function: a guarded function has rank 0, every other
+    `deref…` function a rank above everything it calls -/
+def derefRank (f : String) : Nat :=
+  match [("derefExamples", 1), ("derefLinks", 1), ("derefContent", 2), ("derefParameter", 3), ("derefRequestBody", 3),
+         ("derefResponse", 3), ("derefResponseBodies", 4), ("derefResponses", 5), ("InternalizeRefs", 6)].find? (·.1 == f) with
+  | some p => p.2
+  | none => 0
+
+/-- along every call out of an unguarded function of internalize_refs.go the rank decreases -/
+theorem deref_rank_decreases :
+    Gen.c20DerefCalls.all (fun e => Gen.c20DerefGuards.any (·.1 == e.1) || decide (derefRank e.2 < derefRank e.1)) = true := by
+  decide
+
+/-- … which is the hypothesis `UnguardedRanked` of `internalize_total` for every object graph whose objects are
+    labelled with the function that handles them (`fn`), whose edges are calls of the table, and whose guarded
+    objects are those of the three guarded functions -/
+theorem unguardedRanked_of_calls (g : Graph) (fn : Nat → String) (guarded : Nat → Bool)
+    (hg : ∀ i, guarded i = Gen.c20DerefGuards.any (·.1 == fn i))
+    (he : ∀ i, ∀ c ∈ g i, (fn i, fn c) ∈ Gen.c20DerefCalls) :
+    UnguardedRanked g guarded (fun i => derefRank (fn i)) := by
+  intro i hi c hc
+  have hmem := he i c hc
+  have hall := List.all_eq_true.1 deref_rank_decreases _ hmem
+  simp only [Bool.or_eq_true, decide_eq_true_eq] at hall
+  rcases hall with h | h
+  · rw [hg i] at hi; simp [hi] at h
+  · exact h
 
 end KinModel.Props.C20
